@@ -7,6 +7,7 @@ pub mod engine_http;
 pub mod engine_sync;
 pub mod prop_c01;
 pub mod prop_c02;
+pub mod prop_c04;
 pub mod prop_c06;
 pub mod prop_c07;
 pub mod prop_c08;
@@ -21,6 +22,7 @@ pub fn registry() -> Vec<PropertyDef> {
     vec![
         prop_c01::def(),
         prop_c02::def(),
+        prop_c04::def(),
         prop_c06::def(),
         prop_c07::def(),
         prop_c08::def(),
